@@ -11,7 +11,7 @@ func init() {
 		Title: "Queue never loses a wake-up: blocked calls resume whenever they can proceed",
 		Rule: "M1 controlled scheduler: every goroutine of a generated well-formed producer/consumer/closer program (1-3 producers x 1-3 values, 1-3 consumers reading until ok=false, capacity 1-3, optional observers, optional RemoveAll caller) parks at the build-tag hooks before every lock, send, receive and close of queue.go and runs one at a time; " +
 			"enabledness is computed from the real channel (a goroutine that reached a send/receive that cannot proceed is committed to that channel object, as it would be inside the runtime); strategies: random walk and PCT. Oracle: a state with unfinished goroutines and none enabled is a deadlock (lost wake-up), decided in logical time; terminal check: every operation returned, every value consumed or discarded. " +
-			"Constructors: MakeFromArray, MakeFromSequence, module Queue(values|sequence|source) and ParseSource of Queue literals with 0..64 initial values. distinct_nontrivial = distinct (program, executed schedule) pairs + distinct (constructor, N).",
+			"M2: the same program family (plus observers incl. String()) on the real scheduler with hook-injected yields; a run that does not terminate is decided by the stable-dump rule. Constructors: MakeFromArray, MakeFromSequence, module Queue(values|sequence|source|capacity+values) and ParseSource of Queue literals with 0..64 initial values. distinct_nontrivial = distinct (program, executed schedule) pairs + distinct (constructor, N).",
 		Assumptions: []string{
 			"AddValue is never issued after CloseQueue may have completed and CloseQueue is issued once (valid use)",
 			"'eventually' is decided as 'no stuck state in the explored schedules'; delays fall at hook points only",
@@ -19,7 +19,8 @@ func init() {
 		Engines: []*core.Engine{
 			{Name: "m1/well-formed-programs", Count: core.FixedCount(30000, 1000000), Run: func(c *core.Ctx, idx int) { conc.RunC05M1(c) }, CPULimit: 60, BlockIsViolation: true},
 			{Name: "m1/exhaustive-tiny-programs", Count: core.FixedCount(len(conc.TinyPrograms), len(conc.TinyPrograms)), Run: func(c *core.Ctx, idx int) { conc.RunM1Exhaustive(c, idx, "C05") }, CPULimit: 1800},
-			{Name: "constructors/m1", Count: core.FixedCount(65*5, 65*5), Run: conc.RunC05Constructor, Exhaustive: true, CPULimit: 60},
+			{Name: "m2/real-scheduler-termination", Count: core.FixedCount(200, 4000), Run: conc.RunC05M2, CPULimit: 300, MaxWorkers: 4},
+			{Name: "constructors/m1", Count: core.FixedCount(65*6, 65*6), Run: conc.RunC05Constructor, Exhaustive: true, CPULimit: 60},
 			{Name: "constructors/parsed-literal", Count: core.FixedCount(65, 65), Run: func(c *core.Ctx, idx int) { conc.RunC05ParsedLiteral(c, idx) }, Exhaustive: true, CPULimit: 60},
 		},
 		Repro: map[string]func() (bool, string){"c05.removeall": conc.ReproRemoveAll, "c05.constructor": conc.ReproQueueConstructor},
